@@ -58,6 +58,42 @@ fn main() {
             }
         }
     }
+    // C08: the WHOLE binary src/bin/server_persistent.rs (its `main` is the production start-up sequence:
+    // recover → WAL replay → workers → listeners) is compiled as the harness-side binary `rvpersist`
+    // (src/bin/rvpersist.rs includes this copy; only the leading inner attributes / `//!` lines are
+    // dropped, which `include!` does not accept).  cfg `verif_persist_main` = the copy exists.
+    println!("cargo:rustc-check-cfg=cfg(verif_persist_main)");
+    if let Ok(ps) = fs::read_to_string(&persist) {
+        // only crates the harness itself depends on can be named by the copy: a `use` of another crate
+        // leaves the cfg off (C08 then reports `C08:coverage:persistent-server-main-not-built` with
+        // the reason) instead of breaking the build of every check
+        let known = ["std", "core", "alloc", "bytes", "parking_lot", "redis_sim", "tokio", "tracing", "tikv_jemallocator", "serde", "serde_json", "bincode", "crc32fast"];
+        let foreign: Vec<String> = ps
+            .lines()
+            .filter_map(|l| l.trim_start().strip_prefix("use "))
+            .map(|r| r.split(|c: char| !(c.is_alphanumeric() || c == '_')).next().unwrap_or("").to_string())
+            .filter(|c| !c.is_empty() && !known.contains(&c.as_str()) && c != "super" && c != "crate" && c != "self")
+            .collect();
+        let reason = if !foreign.is_empty() { format!("src/bin/server_persistent.rs uses crate(s) the harness does not depend on: {}", foreign.join(", ")) } else if !ps.contains("async fn main()") { "src/bin/server_persistent.rs has no `async fn main()`".to_string() } else { String::new() };
+        println!("cargo:rustc-env=RV_PERSIST_REASON={}", reason);
+        if ps.contains("async fn main()") && foreign.is_empty() {
+            let mut body = String::new();
+            let mut head = true;
+            for line in ps.lines() {
+                let t = line.trim_start();
+                if head && (t.starts_with("//!") || t.starts_with("#![") || t.is_empty()) {
+                    body.push('\n');
+                    continue;
+                }
+                head = false;
+                body.push_str(line);
+                body.push('\n');
+            }
+            let dest = PathBuf::from(std::env::var("OUT_DIR").unwrap()).join("persist_main.rs");
+            fs::write(dest, body).unwrap();
+            println!("cargo:rustc-cfg=verif_persist_main");
+        }
+    }
     let file = PathBuf::from(&dep).join("src/production/sharded_actor.rs");
     println!("cargo:rerun-if-changed={}", file.display());
     println!("cargo:rerun-if-changed=Cargo.toml");
